@@ -193,6 +193,15 @@ def _run_shard(job):
                     state_key = base
                 elif base != state_key:
                     raise common.HarnessError(f"replay of {hist} reached {base}, earlier {state_key}")
+                if any(x[1] is None for x in base[1]):
+                    # the adapter could not read the hidden exact/broadcastable flag of '*name'
+                    # bindings (fallback mode: state parsed from print_bindings()): take the flags
+                    # from the reference run of the same history
+                    rs = ({}, {})
+                    for hd, hsh in hist:
+                        rs = rshapes.step(rs, rdims.parse(hd)[1], tuple(hsh), args)[1]
+                    flags = {k: ex for k, (ex, _sh) in rs[1].items()}
+                    base = (base[0], tuple((k, flags.get(k, ex), sh) for k, ex, sh in base[1]), base[2])
                 rbase = to_ref_state(base)
                 n = 0
                 while pos < len(todo):
@@ -221,7 +230,7 @@ def _run_shard(job):
                         want = from_ref_state(rnew) if got is True else base
                         if not adapter.same_bindings(after, want) or after[2] != base[2]:
                             bad = f"verdict {got!r} but context became {after}, expected {want}"
-                    changed = after != base
+                    changed = not adapter.same_bindings(after, base) or after[2] != base[2]
                     if changed or (got is not True and (rbase[0] or rbase[1])):
                         stats["nontrivial"] += 1
                     if bad is None and (changed or (stats["transitions"] % job["pb_every"] == 0)):
